@@ -185,9 +185,16 @@ def run(R, env):
         stored = []
         for op in storage_ops_deep(prog, h_nz, env.depth):
             if op["kind"] == "w" and ns_of(prog, op["args"][0]) == "batches":
+                hit_ = False
                 for s in subterms(op["args"][-1]):
                     if s[0] == "upd" and s[2] == ("expected_native_unstaked",):
                         stored.append((op, s[3]))
+                        hit_ = True
+                if not hit_:
+                    # struct-update syntax / update closure: the same field of the value written
+                    for b_, d_ in shared.write_value_alternatives(prog, op, "batches") or []:
+                        if ("expected_native_unstaked",) in d_:
+                            stored.append((op, d_[("expected_native_unstaked",)]))
         R.floor("C01.R3", "expected_native_unstaked stored by SubmitBatch", len(stored), 1)
         for op, val in stored:
             v = val[3][0][2] if val[0] == "agg" and val[2] == "Some" else None
